@@ -62,7 +62,7 @@
 #endif
 
 enum { N_SEQ, N_TRY, N_THROW, N_CALL, N_MARK, N_TMPL };
-enum { NKINDS = 19 };
+enum { NKINDS = 20 };
 enum { MAXF = 8 };
 
 typedef struct Node Node;
@@ -82,13 +82,16 @@ static var UserExc = CelloEmpty(UserExc);
 /* user exception objects whose names are related by prefix (a filter must match the object, not a part of its name) */
 static var UserExcEOF = CelloEmpty(UserExcEOF);
 static var User = CelloEmpty(User);
+/* a second, distinct exception object with the same type name as UserExc: filters match it (they compare by name), but
+ * the object bound in the handler must be the one that was thrown, not the filter entry */
+static var UserExcTwin = CelloEmpty(UserExc);
 static var K[NKINDS];
 static const char* KN[NKINDS] = { "TypeError", "KeyError", "ValueError", "IOError", "UserExc", "UserExcEOF", "User",
                                    "IndexOutOfBoundsError", "ClassError", "FormatError",
                                    /* the remaining built-in exception objects: every one is its own kind */
                                    "BusyError", "ResourceError", "OutOfMemoryError", "SegmentationError", "ProgramAbortedError",
                                    "DivisionByZeroError", "IllegalInstructionError", "ProgramInterruptedError",
-                                   "ProgramTerminationError" };
+                                   "ProgramTerminationError", "UserExcTwin" };
 
 static var last_thrown = NULL;
 static int in_child = 0;
@@ -566,7 +569,7 @@ int main(int argc, char** argv) {
   K[0] = TypeError; K[1] = KeyError; K[2] = ValueError; K[3] = IOError; K[4] = UserExc; K[5] = UserExcEOF; K[6] = User;
   K[7] = IndexOutOfBoundsError; K[8] = ClassError; K[9] = FormatError;
   K[10] = BusyError; K[11] = ResourceError; K[12] = OutOfMemoryError; K[13] = SegmentationError; K[14] = ProgramAbortedError;
-  K[15] = DivisionByZeroError; K[16] = IllegalInstructionError; K[17] = ProgramInterruptedError; K[18] = ProgramTerminationError;
+  K[15] = DivisionByZeroError; K[16] = IllegalInstructionError; K[17] = ProgramInterruptedError; K[18] = ProgramTerminationError; K[19] = UserExcTwin;
   thr_fn_s.f.func = thr_main; thr_fn = header_init(&thr_fn_s, Function, AllocStatic);
   if (EXIT_FAILURE isnt 1) { harness_bug("EXIT_FAILURE is not 1 on this platform"); }
   while (true) {
